@@ -54,6 +54,14 @@ import (
 // another index.
 const ClassSelectExtra = "select-with-extra-column-panics"
 
+// ClassSemiRevSelect: a reversed semijoin (source2 is iterated, source1 probed;
+// chosen when source1 is a single row) passes the by-column part of a Select /
+// Lookup that is consistent with its requirement on to source2, which was
+// optimized without any requirement and is read by an index that does not
+// start with those columns: panic "Sels.Get can't find <col>". Seen with
+// 't3 where e is 2 semijoin t4' (e a unique index) selected / looked up by b.
+const ClassSemiRevSelect = "reversed-semijoin-select-reaches-unprepared-source2"
+
 type failCase struct {
 	Variant string      `json:"variant"`
 	Text    string      `json:"query"`
@@ -101,6 +109,10 @@ func (ck *checker) fail(env *qh.Env, q *qm.Q, pc qh.PlanCase, what, format strin
 	if class == "" && what == "select-extra" &&
 		(strings.Contains(msg, "panic: Sels.Get can't find") || strings.Contains(msg, "panic: ASSERT FAILED")) {
 		class = ClassSelectExtra
+	}
+	if class == "" && strings.Contains(msg, "panic: Sels.Get can't find") && strings.Contains(msg, "semijoin-rev") &&
+		what != "select-extra" {
+		class = ClassSemiRevSelect
 	}
 	if triage != nil {
 		fmt.Fprintf(triage, "[%s:%s] %s | db=%s | %s | %s\n", what, class, q.Text(), env.Name, pc, msg)
@@ -579,6 +591,25 @@ func (ck *checker) checkPlan(env *qh.Env, q *qm.Q, pq qry.Query, pc qh.PlanCase,
 						}
 						if mk := matching(key, kv); len(mk) == 1 && Fk[mk[0]] == got {
 							alt = got
+						}
+					}
+				}
+				// ... or on the columns of a unique index (not reported as a key by the
+				// query layer, and possibly renamed): accepted when the row is the only
+				// one that matches the sels on some subset of their columns
+				if want == "" && got != "" && alt == "" {
+					for sub := 1; sub < 1<<len(names); sub++ {
+						var sn []string
+						var sv []qm.Val
+						for i := range names {
+							if sub&(1<<i) != 0 {
+								sn = append(sn, names[i])
+								sv = append(sv, vals[i])
+							}
+						}
+						if mk := matching(sn, sv); len(mk) == 1 && Fk[mk[0]] == got {
+							alt = got
+							break
 						}
 					}
 				}
